@@ -105,37 +105,13 @@ reg(part('memmem_searcher', 'src/memmem/searcher.rs', 'memmem::searcher',
          keep_derives=['Copy']))
 reg(part('cow', 'src/cow.rs', 'cow'))
 # the non-union, non-fn-pointer slice of the meta searcher that Two-Way depends on
-reg(part('memmem_pre', 'src/memmem/searcher.rs', 'memmem::searcher',
-         only_items=['struct PrefilterState', 'impl PrefilterState', 'struct Pre', 'impl Pre', 'fn do_packed_search',
-                     'struct Prefilter', 'impl Prefilter'],
-         # X9: the union + fn-pointer fields and everything that builds or calls through them are not extracted
-         drop_fields=['Prefilter.call', 'Prefilter.kind'],
-         drop_items=['impl Prefilter::fn fallback', 'impl Prefilter::fn sse2', 'impl Prefilter::fn avx2',
-                     'impl Prefilter::fn simd128', 'impl Prefilter::fn neon', 'impl Prefilter::fn find']))
 # stubs: assumed contracts standing in for modules that are verified in another build
-reg(part('stub_all_memchr', None, 'arch::all::memchr'))
 reg(part('stub_root', None, ''))
-reg(part('stub_all_packedpair', None, 'arch::all::packedpair'))
-reg(part('stub_rabinkarp', None, 'arch::all::rabinkarp'))
-reg(part('stub_twoway', None, 'arch::all::twoway'))
-reg(part('lib_root', 'src/lib.rs', '', only_items=['use crate::memchr::{*']))
 # crate-root re-exports of the names that exist in the extracted `memchr` module (lib.rs also re-exports the three
 # memrchrN_iter adapters, which are not extracted)
 reg(part('root_reexport', None, ''))
 # the union-reading glue of the meta searcher (everything except constructing / calling through the fn pointers)
-reg(part('memmem_glue', 'src/memmem/searcher.rs', 'memmem::searcher',
-         only_items=['struct Searcher', 'union SearcherKind', 'struct TwoWayWithPrefilter', 'fn searcher_kind_empty',
-                     'fn searcher_kind_one_byte', 'fn searcher_kind_two_way', 'fn searcher_kind_two_way_with_prefilter',
-                     'fn searcher_kind_sse2', 'fn searcher_kind_avx2', 'union PrefilterKind', 'fn prefilter_kind_fallback',
-                     'fn prefilter_kind_sse2', 'fn prefilter_kind_avx2'],
-         drop_fields=['Searcher.call', 'SearcherKind.simd128', 'SearcherKind.neon', 'PrefilterKind.simd128', 'PrefilterKind.neon']))
 # memmem_pre with the `kind` union field of Prefilter kept (for builds that contain memmem_glue)
-reg(part('memmem_pre_full', 'src/memmem/searcher.rs', 'memmem::searcher',
-         only_items=['struct PrefilterState', 'impl PrefilterState', 'struct Pre', 'impl Pre', 'fn do_packed_search',
-                     'struct Prefilter', 'impl Prefilter'],
-         drop_fields=['Prefilter.call'],
-         drop_items=['impl Prefilter::fn fallback', 'impl Prefilter::fn sse2', 'impl Prefilter::fn avx2',
-                     'impl Prefilter::fn simd128', 'impl Prefilter::fn neon', 'impl Prefilter::fn find']))
 # the WHOLE forward meta searcher with the fn pointers defunctionalised (X15): Searcher::{new,twoway,find},
 # Prefilter::{fallback,sse2,avx2,find,find_simple}, the kind functions, PrefilterState, Pre, do_packed_search
 X15 = [dict(type='SearcherKindFn', prefix='searcher_kind_', impl='impl Searcher'),
@@ -145,37 +121,20 @@ reg(part('memmem_meta', 'src/memmem/searcher.rs', 'memmem::searcher', cfg='x86_6
                      'impl Default for PrefilterConfig', 'impl PrefilterConfig',
                      'use crate::arch::aarch64::neon::packedpairasneon', 'use crate::arch::wasm32::simd128::packedpairassimd128'],
          drop_fields=['SearcherKind.simd128', 'SearcherKind.neon', 'PrefilterKind.simd128', 'PrefilterKind.neon']))
-reg(part('memmem_reexport', 'src/memmem/mod.rs', 'memmem', only_items=['use crate::memmem::searcher::Pre']))
 
-clone_part('memmem_searcher_rev', 'memmem_searcher')
 clone_part('all_memchr_32', 'all_memchr')
-clone_part('all_twoway_f', 'all_twoway')
-clone_part('memmem_mod_f', 'memmem_mod')
 
 P0 = ['prelude/vbase.vrs']
 BASE = ['ext', 'vector', 'generic_memchr']
 BUILDS = {
-    # F variant: everything that is verified against debug/documented-domain semantics
+    # F variant: the whole crate (x86_64 wiring) in one unit: byte searchers, substring engines, the meta searcher with
+    # its fn pointers defunctionalised (X15), the memmem front end, cow, Shift-Or
     'main': dict(parts=['ext', 'vector', 'generic_memchr', 'sse2_memchr', 'avx2_memchr', 'all_memchr', 'x86_64_memchr',
                         'memchr_top', 'root_reexport', 'all_mod', 'all_rabinkarp', 'all_packedpair', 'all_default_rank',
-                        'generic_packedpair', 'sse2_packedpair', 'avx2_packedpair', 'memmem_reexport', 'memmem_pre_full',
-                        'memmem_glue', 'all_twoway', 'all_shiftor'],
-                 prelude=P0 + ['prelude/x_eqrk.vrs', 'prelude/x_pp.vrs', 'prelude/x_tw.vrs', 'prelude/x_twc.vrs', 'prelude/x_so.vrs', 'prelude/hist.vrs']),
-    'dev_glue': dict(parts=['ext', 'vector', 'generic_memchr', 'sse2_memchr', 'avx2_memchr', 'all_memchr', 'x86_64_memchr',
-                            'memchr_top', 'root_reexport', 'all_mod', 'all_rabinkarp', 'all_packedpair', 'all_default_rank',
-                            'generic_packedpair', 'sse2_packedpair', 'avx2_packedpair', 'memmem_reexport', 'memmem_pre_full',
-                            'memmem_glue', 'all_twoway', 'all_shiftor'],
-                     prelude=P0 + ['prelude/x_eqrk.vrs', 'prelude/x_pp.vrs', 'prelude/x_tw.vrs', 'prelude/x_twc.vrs', 'prelude/x_glue.vrs']),
-    'dev_rkx': dict(parts=['ext', 'vector', 'all_mod', 'all_rabinkarp'], prelude=P0 + ['prelude/x_eqrk.vrs']),
-    'dev_ppx': dict(parts=BASE + ['stub_root', 'all_mod', 'all_packedpair', 'all_default_rank', 'generic_packedpair',
-                                  'sse2_packedpair', 'avx2_packedpair'], prelude=P0 + ['prelude/x_eqrk.vrs', 'prelude/x_pp.vrs']),
-    'dev_ppsx': dict(parts=['ext', 'stub_root', 's_vector', 's_all_mod', 's_all_packedpair', 'all_default_rank', 's_generic_packedpair',
-                            's_sse2_packedpair', 's_avx2_packedpair'], prelude=P0 + ['prelude/x_eqrk.vrs', 'prelude/x_pp.vrs']),
-    'dev_twx': dict(parts=['ext', 'vector', 'all_mod', 'stub_all_memchr', 'memmem_reexport', 'memmem_pre', 'all_twoway'],
-                    prelude=P0 + ['prelude/x_eqrk.vrs', 'prelude/x_tw.vrs']),
-    'dev_twc': dict(parts=['ext', 'vector', 'all_mod', 'stub_all_memchr', 'memmem_reexport', 'memmem_pre', 'all_twoway'],
-                    prelude=P0 + ['prelude/x_eqrk.vrs', 'prelude/x_twc.vrs']),
-    'dev_so': dict(parts=['ext', 'vector', 'all_mod', 'all_shiftor'], prelude=P0 + ['prelude/x_so.vrs']),
+                        'generic_packedpair', 'sse2_packedpair', 'avx2_packedpair', 'all_twoway', 'all_shiftor', 'cow',
+                        'memmem_mod', 'memmem_meta', 'memmem_searcher'],
+                 prelude=P0 + ['prelude/x_eqrk.vrs', 'prelude/x_pp.vrs', 'prelude/x_tw.vrs', 'prelude/x_twc.vrs', 'prelude/x_so.vrs',
+                               'prelude/x_memmem.vrs', 'prelude/x_meta.vrs', 'prelude/hist.vrs']),
     # other targets (text the x86_64 host never compiles)
     'aarch64': dict(parts=['ext', 'vector', 'vector_neon', 'generic_memchr', 'all_memchr', 'neon_memchr', 'aarch64_memchr',
                            'memchr_top_aarch64', 'root_reexport', 'all_mod', 'all_packedpair', 'all_default_rank',
@@ -189,37 +148,19 @@ BUILDS = {
     # 32-bit targets: the same portable wiring with a 4-byte usize (the SWAR chunk is 4 bytes wide)
     'other32': dict(parts=['ext', 'vector', 'generic_memchr', 'all_memchr_32', 'memchr_top_other', 'root_reexport'], prelude=P0,
                     usize_bytes=4),
-    # unified build: the whole substring stack with the fn pointers defunctionalised (X15); nothing assumed about Searcher
-    'full': dict(parts=['ext', 'vector', 'generic_memchr', 'sse2_memchr', 'avx2_memchr', 'all_memchr', 'x86_64_memchr',
-                        'memchr_top', 'root_reexport', 'all_mod', 'all_rabinkarp', 'all_packedpair', 'all_default_rank',
-                        'generic_packedpair', 'sse2_packedpair', 'avx2_packedpair', 'all_twoway_f', 'cow', 'memmem_mod_f',
-                        'memmem_meta', 'memmem_searcher_rev'],
-                 prelude=P0 + ['prelude/x_eqrk.vrs', 'prelude/x_pp.vrs', 'prelude/x_tw.vrs', 'prelude/x_twc.vrs', 'prelude/x_memmem.vrs', 'prelude/x_meta.vrs']),
     # S variant (release semantics, type invariants only): decides C05 for the packed-pair finders
     'safe': dict(parts=['ext', 'stub_root', 's_vector', 's_all_mod', 's_all_packedpair', 'all_default_rank',
                         's_generic_packedpair', 's_sse2_packedpair', 's_avx2_packedpair'],
                  prelude=P0 + ['prelude/x_eqrk.vrs', 'prelude/x_pp.vrs']),
-    # the substring front end against assumed searcher contracts (stubs)
-    'memmem': dict(parts=['ext', 'vector', 'generic_memchr', 'sse2_memchr', 'avx2_memchr', 'all_memchr', 'x86_64_memchr',
-                          'memchr_top', 'root_reexport', 'all_mod', 'all_rabinkarp', 'all_packedpair', 'all_default_rank',
-                          'all_twoway', 'cow', 'memmem_mod', 'memmem_pre', 'memmem_searcher'],
-                   prelude=P0 + ['prelude/x_eqrk.vrs', 'prelude/x_pp.vrs', 'prelude/x_tw.vrs', 'prelude/x_twc.vrs', 'prelude/x_memmem.vrs']),
-    # development builds (one per porting task; each may add its own prelude/x_<name>.vrs)
+    # development builds (small dependency closures for template work)
     'dev_generic': dict(parts=BASE, prelude=P0),
     'dev_eq': dict(parts=['ext', 'vector', 'all_mod'], prelude=P0),
-    'dev_x86': dict(parts=BASE + ['sse2_memchr', 'avx2_memchr'], prelude=P0 + ['prelude/x_x86.vrs']),
-    'dev_top': dict(parts=BASE + ['sse2_memchr', 'avx2_memchr', 'all_memchr', 'x86_64_memchr', 'memchr_top', 'root_reexport'], prelude=P0),
-    'dev_swar': dict(parts=BASE + ['all_memchr'], prelude=P0 + ['prelude/x_swar.vrs']),
+    'dev_x86': dict(parts=BASE + ['sse2_memchr', 'avx2_memchr'], prelude=P0),
+    'dev_swar': dict(parts=BASE + ['all_memchr'], prelude=P0),
     'dev_eqrk': dict(parts=['ext', 'vector', 'all_mod', 'all_rabinkarp'], prelude=P0 + ['prelude/x_eqrk.vrs']),
     'dev_pp': dict(parts=BASE + ['stub_root', 'all_mod', 'all_packedpair', 'all_default_rank', 'generic_packedpair',
                                  'sse2_packedpair', 'avx2_packedpair'], prelude=P0 + ['prelude/x_eqrk.vrs', 'prelude/x_pp.vrs']),
-    'dev_pps': dict(parts=['ext', 'stub_root', 's_vector', 's_all_mod', 's_all_packedpair', 'all_default_rank', 's_generic_packedpair',
-                           's_sse2_packedpair', 's_avx2_packedpair'], prelude=P0 + ['prelude/x_eqrk.vrs', 'prelude/x_pp.vrs']),
-    'dev_pre': dict(parts=['ext', 'vector', 'stub_all_memchr', 'memmem_reexport', 'memmem_pre'], prelude=P0),
-    'dev_tw': dict(parts=['ext', 'vector', 'all_mod', 'stub_all_memchr', 'memmem_reexport', 'memmem_pre', 'all_twoway'], prelude=P0 + ['prelude/x_eqrk.vrs', 'prelude/x_tw.vrs']),
-    'dev_memmem': dict(parts=['ext', 'vector', 'stub_root', 'stub_all_memchr', 'stub_all_packedpair', 'stub_rabinkarp',
-                              'stub_twoway', 'cow', 'memmem_mod', 'memmem_pre', 'memmem_searcher'],
-                       prelude=P0 + ['prelude/x_memmem.vrs']),
+    'dev_so': dict(parts=['ext', 'vector', 'all_mod', 'all_shiftor'], prelude=P0 + ['prelude/x_so.vrs']),
 }
 
 CONFIGS_EXTRA = {'union': UNION, 'aarch64': AARCH64, 'wasm32': WASM32}
